@@ -89,7 +89,8 @@ def make_case(rng, kind):
         dist = gen.pick(rng, gen.DIST_CLASSES)
     ndim = 1 if rng.random() < 0.55 else 2
     if kind == "huge":
-        ndim = 1 if rng.random() < 0.7 else 2
+        ndim = 1 if rng.random() < 0.75 else 2
+        dist = gen.pick(rng, ["verysparse", "sparse", "sparse", "skew"])
     if kind == "wide" and acls == "small":
         ndim = 2
     if ndim == 2:
@@ -100,6 +101,13 @@ def make_case(rng, kind):
     else:
         shape = (n,)
     flat = gen.draw_values(rng, int(numpy.prod(shape)), vals, dist)
+    if kind == "huge" and len(flat):
+        # uncommon values beyond row 2^20, up to the very last row
+        u, c = numpy.unique(flat[:100000], return_counts=True)
+        rare = [v for v in vals if v != int(u[int(numpy.argmax(c))])]
+        for pos in (-1, -2, 2 ** 20 * (1 if ndim == 1 else shape[1]) + 3):
+            if -len(flat) <= pos < len(flat):
+                flat[pos] = gen.pick(rng, rare)
     lo, hi = (min(vals), max(vals))
     dts = gen.storage_dtypes(lo, hi)
     dt = gen.pick(rng, dts) if dts else numpy.dtype(object)
